@@ -490,6 +490,9 @@ pub fn run(ctx: &mut Ctx) {
             None => gen_plan(&mut r, &toks, &mut np),
         };
         let path = PATHS[r.below(PATHS.len())];
+        if crate::fam_lower::set_pull_first(ctx.seed, case) {
+            ctx.count("side-effect-report-pulled-before-encode");
+        }
         let lowered = instrument(&wat, 0, 1, path, &plan, toks.len(), nl);
         // callees as the driver reads them
         let mut callees = vec!["log".to_string(), "self".to_string()];
